@@ -7,6 +7,8 @@ class AssocDict:
 
     def __init__(self, d=None):
         self.items_ = list(d.items()) if d else []
+        # a collections.defaultdict keeps its behaviour: a missing key read with [] is created from the factory
+        self.default_factory = getattr(d, 'default_factory', None)
 
     def __contains__(self, k):
         for kk, _ in self.items_:
@@ -18,6 +20,10 @@ class AssocDict:
         for kk, v in self.items_:
             if kk == k:
                 return v
+        if self.default_factory is not None:
+            v = self.default_factory()
+            self.items_.append((k, v))
+            return v
         raise KeyError(k)
 
     def __setitem__(self, k, v):
